@@ -2004,7 +2004,11 @@ class GAM(Core, MetaTermMixin):
             self._validate_params()
 
         y = check_y(y, self.link, self.distribution, verbose=self.verbose)
-        X = check_X(X, verbose=self.verbose)
+        X = check_X(
+            X,
+            n_feats=self.statistics_['m_features'] if self._is_fitted else None,
+            verbose=self.verbose,
+        )
         check_X_y(X, y)
 
         if not self._is_fitted:
